@@ -73,6 +73,10 @@ DEvalStep ==
     /\ LET j == TraceLog[l]  a == archs[j.a] IN
        /\ Fails(DEvalFails(j, a.modules, a.imports), j.rid)
        /\ IF j.same THEN TRUE ELSE Report("C15", "architecture-changed-by-evaluation", j.rid)
+       \* session replays (Session.tla) also evaluate the configuration in isolation - fresh architecture, fresh
+       \* rule object - and log whether verdict and message were the same
+       /\ IF "fresh_same" \in DOMAIN j /\ ~j.fresh_same
+          THEN Report("C15", "outcome-depends-on-history-or-object-reuse", j.rid) ELSE TRUE
     /\ UNCHANGED archs
 
 TraceInit == l = 1 /\ archs = <<>>
